@@ -147,6 +147,10 @@ fn compare(prefix: &str, names: (&str, &str), a: &Built, b: &Built, equal: bool,
             normalise_message(oa.first().or(ob.first()).unwrap())
         };
         fails.push((format!("{prefix}|diagnostics|{cause}"), format!("diagnostic messages differ: only {}: {:?}; only {}: {:?}\n{}", names.0, oa, names.1, ob, both)));
+    } else if !moved && a.msgs != b.msgs {
+        // same sources in the same order: diagnostics are sorted by (file, offset) resp. reported as met,
+        // so the SEQUENCE of messages is the same too (moving an extension legitimately changes it)
+        fails.push((format!("{prefix}|diagnostic-order"), format!("the same diagnostic messages are reported in another order\n{both}")));
     }
     if !equal {
         fails.push((format!("{prefix}|not-equal"), format!("the two results are not == \n{both}")));
